@@ -96,6 +96,16 @@ def cases(draw, tier):
         # the history must not rename/transpose away the metadata axis
         spec["history"] = [o for o in spec["history"]
                            if o["op"] not in ("transpose",)]
+    if md == "none" and len(spec["samp"]) >= 2 and \
+            draw(st.sampled_from([False] * 11 + [True])):
+        # a *sample* may be called like a lineage column
+        nm = draw(st.sampled_from(["taxonomy", "Taxonomy", "KEGG_Pathways",
+                                   "Consensus Lineage", "ConsensusLineage",
+                                   "OTU Metadata", "metadata"]))
+        if nm not in spec["samp"]:
+            spec["samp"] = spec["samp"][:-1] + [nm]
+            spec["history"] = [o for o in spec["history"]
+                               if o["op"] not in ("transpose", "rename")]
     return {"table": spec, "md": md, "colname": colname,
             # the label of the ID column (API exports only)
             "obs_col": draw(st.sampled_from(["#OTU ID", "#OTU ID", "Taxon",
